@@ -10,7 +10,9 @@ Structural clauses decided, for each of the three filter.rs copies (tcp, http, t
  R7 the builders store what the caller configured (as parsed), nothing rewrites a value on its way into the lists
  R7 (also) source_only / destination_only / any_port set exactly the documented flags in all three copies
 """
+from ..engine import cfg as C
 from ..engine import decision as D
+from ..engine import tables as TB
 from ..engine import q as Q
 from ..engine import terms as T
 from ..engine.facts import AnchorMissing, callee_of
@@ -670,6 +672,34 @@ def rule_builders(ctx):
                              "%s::%s assigns to the list `%s` instead of adding to it: values configured by earlier builder calls are silently dropped, so a listed "
                              "port / address no longer matches" % ((b.impl_self or "").split("::")[-1], b.name, names[0]), ctx.loc(b, i))
     ctx.floor("R7", "builder methods of the filter types", k, 30)
+    # builders always store: a builder that takes a value (`with_ip_filter(f)`, `destination(p)`, `allow(addr)`) registers it on every path on
+    # which it returns normally - a value that is `empty` or `trivial` in the builder's eyes is still a constraint (an address filter
+    # without addresses matches nothing; dropping it makes the configuration match everything)
+    nb = 0
+    for crate in ("huginn_net_tcp", "huginn_net_http", "huginn_net_tls"):
+        for b in sorted(P.bodies.values(), key=lambda x: x.path):
+            if b.crate != crate or "::filter::" not in b.path or b.kind != "AssocFn" or b.name in ("new", "default") or b.impl_trait or b.arg_count < 2:
+                continue
+            if not b.local_ty(1).split("::")[-1].startswith(("PortFilter", "IpFilter", "SubnetFilter", "FilterConfig")):
+                continue
+            if not b.local_ty(0).split("::")[-1].startswith(("PortFilter", "IpFilter", "SubnetFilter", "FilterConfig")):
+                continue          # fallible builders (Result<Self, _>) return early on a parse error: not this rule
+            stores = set()
+            for i, j, s_ in b.iter_stmts():
+                if s_["k"] == "assign" and s_["p"]["l"] == 1 and s_["p"]["pr"]:
+                    stores.add(i)
+            for blk_, t_ in b.calls():
+                if callee_of(t_).endswith(("Vec::<T, A>::push", "::extend", "::append", "::insert", "::extend_from_slice")):
+                    stores.add(blk_)
+            if not stores:
+                continue
+            nb += 1
+            rets = [rb for (rb, j, term, _c) in TB.return_sites(b, P)]
+            bare = [rb for rb in rets if not any(C.dominates(b, sb, rb) for sb in stores)]
+            ctx.check(not bare, "R7", "%s:%s::%s:always-stores" % (crate, (b.impl_self or "").split("::")[-1], b.name), "every return is preceded by the store",
+                      "%s::%s can return without registering its argument: a configured constraint that the builder considers empty / redundant is dropped and the "
+                      "filter admits what it was configured to refuse" % ((b.impl_self or "").split("::")[-1], b.name), ctx.loc(b, bare[0]) if bare else None)
+    ctx.floor("R7", "value-taking builder methods", nb, 20)
     # direction / mode setters assign exactly the documented flags
     want = {"source_only": {"check_source": True, "check_destination": False}, "destination_only": {"check_source": False, "check_destination": True},
             "any_port": {"match_any": True}, "new": None}
